@@ -22,7 +22,7 @@ def expectedLoopFacts : List (String × List String) := [
   ("ranges.InclusiveRange.Value", []),
   ("ranges.InclusiveRange.closestInRange", []),
   ("ranges.InclusiveRanges.Append", []),
-  ("ranges.InclusiveRanges.AppendUnique", ["if-empty-return", "for:pred()"]),
+  ("ranges.InclusiveRanges.AppendUnique", ["if-empty-return", "for:!wrapped && pred()"]),
   ("ranges.InclusiveRanges.Contains", ["range:l.blocks"]),
   ("ranges.InclusiveRanges.End", []),
   ("ranges.InclusiveRanges.Index", ["range:l.blocks"]),
